@@ -28,6 +28,10 @@ var alphabet = []rune{
 	'1',      // NU
 	',',      // IS
 	'א',      // HL
+	0x85,     // NL (mandatory)
+	0x0B,     // BK (VT)
+	'\r',     // CR
+	0x2029,   // BK (PS)
 }
 
 var smallAlphabet = []rune{'a', ' ', '-', '\n', '́', '中'}
